@@ -106,9 +106,12 @@ KsVerdict(rec) ==
 KsfVerdict(rec) ==
   LET e  == Parcor(rec.A)
       n  == IF Len(rec.kout) < Len(e.ks) THEN Len(rec.kout) ELSE Len(e.ks)
-  IN IF rec.err = "ParCorError" /\ (e.err # "ParCorError" \/ Len(rec.kout) # Len(e.ks)) THEN "parcorerror-without-unit-k"
+  IN \* |k| = 1 exactly is not decidable once the computation is in floats: when the exact step-down stops at
+     \* a unit coefficient only the values up to there are judged
+     IF e.err = "none" /\ rec.err = "ParCorError" THEN "parcorerror-without-unit-k"
      ELSE IF ~NearSeq(SubSeq(rec.kout, 1, n), rec.sk, SubSeq(e.ks, 1, n)) THEN "coefficients"
      ELSE IF e.err = "none" /\ (rec.err # "none" \/ Len(rec.kout) # Len(e.ks)) THEN "coefficients"
+     ELSE IF Len(rec.kout) < Len(e.ks) THEN "coefficients"
      ELSE "ok"
 
 StVerdict(rec) ==
